@@ -476,6 +476,8 @@ PROPS["C03"] = dict(
     assumptions=["sweeps are either before all pending deadlines or after all of them (deadlines of one case differ by milliseconds only; per-entry timing is C04's subject)",
                  "ticker wiring: a retransmission must appear within 30 s of real time (nominal 3-4 s); under a backlog two within 25 s (nominal 7-8 s)"],
     runs=[
+        # subscribers that answer every packet the instant they hold it (hook before the broker's write returns): after all deadlines nothing is re-sent, ids free
+        dict(name="ackatreceipt", pkg="c03", run="TestAckAtReceipt", checks=dict(quick=64, thorough=1600), shards=8, timeout=dict(quick=400, thorough=2400), shrinktime="60s"),
         dict(name="regress", pkg="c03", run="TestRegress", timeout=300),
         dict(name="ticker", pkg="c03", run="TestTickerWiring", timeout=300),
         # the broker's own ticker must keep sweeping while the delivery loop is blocked on another session (real time, ~8 s)
@@ -660,6 +662,7 @@ ADDITIONS = {
     "C01": "Run unsuback: at the very moment a session has received its UNSUBACK (hook on the fake connection) another client publishes and is acknowledged: the publish is not delivered to the session that left (unless a remaining filter matches) and is delivered to a session still subscribed.",
     "C14": "Run panic (package c05): a destination whose write panics; the unchanged broker dies (nothing acknowledged), a survivor must not acknowledge.",
     "C02": "Run suback: a publish from another connection sent, and acknowledged, at the very moment the subscriber has received its SUBACK (hook on the fake connection) must reach that subscriber (1-3 filters, 0-60 retained messages replayed in between, QoS 1/2).",
+    "C03": "Run ackatreceipt: 1-3 subscribers answer every PUBLISH / PUBREL the instant they hold it, from a hook that runs before the broker's write of that packet returns (and waits until the broker has consumed the answer); when afterwards every deadline passes twice nothing is sent again, every message was received once and all 65535 identifiers are free.",
     "C04": "Run overlap: 1728 enumerated scenarios of a second sweep that overlaps the callbacks of a running one (from another goroutine or from inside a callback) with an entry registered in between; the second sweep must expire it.",
     "C05": "Runs panic / panicrandom: the failing write panics instead of returning an error; the case runs in a child process, which either dies (nothing acknowledged) or survives and is judged by the same oracle.",
     "C07": "Run lifetime: a node that has held 70 000 / 300 000 topic names (most cleared again) must still retain, replay and clear a publish on a new name, on the writer and on a mirror; checkpoints around powers of 2 and 10. Run puback: at the very moment a publisher has received the acknowledgement of a retained publish (or clear) another client subscribes: it is sent the new value (nothing older after a clear).",
